@@ -581,7 +581,7 @@ func flevel(k FKind) int {
 }
 
 func (p *fprinter) expr(n *FNode, level int) {
-	paren := flevel(n.K) < level || (level >= 1 && p.pct(4))
+	paren := flevel(n.K) < level || p.pct(4) // redundant parentheses at every level, also around the guarded expression of //{..} and a whole rule body
 	if paren {
 		p.w("(")
 		p.ws(false)
